@@ -34,8 +34,17 @@ def gen_fuzz(rng, alphabet, n):
         elif r < 0.62:
             ops.append("page %s" % rng.choice("+-"))
         elif r < 0.66:
-            w = "".join(rng.choice(alphabet + "' ;:`A1\x01\xff/") for _ in range(rng.choice([0, 1, 3, 8, 40])))
-            ops.append("input %s" % hx(w.encode("latin-1")))
+            if rng.random() < 0.3:
+                # many segments: a unit of spelling letters and a character no segmentor claims, repeated past the sizes of
+                # the bounded histories the engine keeps (the commit history holds 20 records)
+                unit = "".join(rng.choice(alphabet) for _ in range(rng.choice([1, 1, 2]))) + rng.choice("1 ;'A/`") * rng.choice([1, 1, 2])
+                w = unit * rng.choice([2, 10, 19, 20, 21, 22, 30])
+                ops.append("input %s" % hx(w.encode("latin-1")))
+                if rng.random() < 0.6:
+                    ops.append(rng.choice(["commit", "key 32 0", "key %d 0" % sc.XK["Return"]]))
+            else:
+                w = "".join(rng.choice(alphabet + "' ;:`A1\x01\xff/") for _ in range(rng.choice([0, 1, 3, 8, 40])))
+                ops.append("input %s" % hx(w.encode("latin-1")))
         elif r < 0.70:
             ops.append("caret %d" % rng.choice(SIZE_EDGES))
         elif r < 0.75:
@@ -63,6 +72,21 @@ def gen_fuzz(rng, alphabet, n):
         else:
             ops.append(rng.choice(["rawid 0", "rawid 1", "rawid 3735928559", "rawid 18446744073709551615", "use 0"]))
     return ops
+
+
+def long_input_histories():
+    """directed: an input of many segments (translated / untranslated alternating) committed in one go, around the size of the
+    commit history (20 records; fix 0abeed3: a record pointer kept across raw segments dangled once the list rotated)"""
+    out = []
+    for sid, letters in (("vs_script", "ab"), ("vs_full", "na")):
+        for sep in ("1", " ", "A", "/", "'"):
+            for n in (19, 20, 21, 22, 25, 45):
+                for unit in (letters[0] + sep, letters[0] + sep + sep, letters + sep):
+                    w = unit * n
+                    for fin in ("commit", "key 32 0", "key %d 0" % sc.XK["Return"]):
+                        out.append((sid, ["new", "schema " + sid, "input %s" % hx(w.encode()), "context", fin, "read_commit",
+                                          "input %s" % hx((unit * 3).encode()), fin, "read_commit", "context"]))
+    return out
 
 
 PIN_ROWS = [("你", "ni", 100), ("好", "hao", 90), ("你好", "ni hao", 80), ("妮", "ni", 10), ("號", "hao", 5), ("嗎", "ma", 50),
